@@ -34,9 +34,10 @@ IntText(v, style) == LET m == IF v < 0 THEN -v ELSE v
                          body == CASE style = "hex" -> "0x" \o InBase(m, 16) [] style = "bin" -> "0b" \o InBase(m, 2) [] OTHER -> InBase(m, 10)
                      IN IF v < 0 THEN "-" \o body ELSE body
 RegText(n, style) == CASE style = "num" -> InBase(n, 10) [] style = "x" -> "x" \o InBase(n, 10)
+                       [] style = "hexnum" -> "0x" \o InBase(n, 16) [] style = "binnum" -> "0b" \o InBase(n, 2)
                        [] style = "fp" -> (IF n = 8 THEN "fp" ELSE Alias[n + 1]) [] OTHER -> Alias[n + 1]
 
-RegStyles == {"num", "x", "alias", "mixA", "mixB"}
+RegStyles == {"num", "x", "alias", "mixA", "mixB", "hexnum", "binnum"}   \* (a register number is an integer: decimal, hex or binary)
 \* mixed styles: every register operand of the line in a DIFFERENT spelling (by slot index), e.g. add a0, 10, x11
 StyleAt(style, i) == CASE style = "mixA" -> <<"x", "alias", "num">>[(i % 3) + 1]
                        [] style = "mixB" -> <<"alias", "num", "x">>[(i % 3) + 1]
@@ -88,8 +89,8 @@ UpToHash(as) == IF as = <<>> \/ as[1] = "#" THEN <<>> ELSE <<as[1]>> \o UpToHash
 Lex(as) == SelectSeq(UpToHash(as), LAMBDA a : a \notin WS)
 
 (* spelling normalisation: tokens -> slots, guided by the logical line's shape *)
-RegOf(t) == IF \E n \in 0..31 : t \in {RegText(n, "num"), RegText(n, "x"), RegText(n, "alias"), RegText(n, "fp")}
-            THEN CHOOSE n \in 0..31 : t \in {RegText(n, "num"), RegText(n, "x"), RegText(n, "alias"), RegText(n, "fp")} ELSE -1
+RegSpellings(n) == {RegText(n, "num"), RegText(n, "x"), RegText(n, "alias"), RegText(n, "fp"), RegText(n, "hexnum"), RegText(n, "binnum")}
+RegOf(t) == IF \E n \in 0..31 : t \in RegSpellings(n) THEN CHOOSE n \in 0..31 : t \in RegSpellings(n) ELSE -1
 IntOf(t, v) == t \in {IntText(v, "dec"), IntText(v, "hex"), IntText(v, "bin")}
 
 RECURSIVE Match(_, _)
